@@ -218,6 +218,20 @@ pub fn handle(mut rq: Request, act: &Action, peer_expect: &str) -> ReqObs {
             let _ = w.flush();
             drop(w);
         }
+        "Z" => {
+            // takes the raw writer and drops it untouched
+            let w = rq.into_writer();
+            drop(w);
+        }
+        "X" => {
+            let data = unhex(rest);
+            let mut w = rq.into_writer();
+            let a = data.len() / 3;
+            let _ = w.write_all(&data[..a]);
+            let _ = w.write_all(&data[a..2 * a]);
+            let _ = w.write_all(&data[2 * a..]);
+            drop(w);
+        }
         "U" => {
             let proto = String::from_utf8(unhex(rest)).unwrap();
             let mut stream = rq.upgrade(&proto, Response::empty(101));
